@@ -127,6 +127,26 @@ def _is_unicode_punctuation(c: str) -> bool:
     )
 
 
+class CustomFootnoteDef(footnote.FootnoteDef):
+    """
+    Fixed FootnoteDef for a tab after the label (`[^1]:<TAB>text`).
+
+    Marko matches block prefixes against the tab-expanded line, but `FootnoteDef` takes
+    its prefix from the raw match. With a tab in it the prefix never matches, so the
+    definition consumes nothing and the parser loops forever. Use the expanded prefix.
+    """
+
+    override: bool = True
+
+    def __init__(self, match: re.Match[str]) -> None:
+        super().__init__(match)
+        text = match.string
+        line_start = text.rfind("\n", 0, match.start()) + 1
+        before = text[line_start : match.start()].expandtabs(4)
+        whole = text[line_start : match.end()].expandtabs(4)
+        self._prefix: str = re.escape(whole[len(before) :])
+
+
 class CustomStrikethrough(gfm_elements.Strikethrough):
     """
     Fixed Strikethrough that implements GFM flanking delimiter rules.
@@ -858,6 +878,8 @@ def flowmark_markdown(
             # Add GFM footnote support.
             footnote_ext = footnote.make_extension()
             for e in footnote_ext.elements:
+                if e is footnote.FootnoteDef:
+                    e = CustomFootnoteDef
                 assert (
                     e not in custom_parser.block_elements and e not in custom_parser.inline_elements
                 )
